@@ -61,17 +61,22 @@ def build(base, sep, doubled, fillers, b1, b2, final, tworows=False):
     texts = ["Ab", "bA", "AA"]
     for i in range(3):
         load = [C.ENM] * d + [C.RCL] * d
-        if tworows:
+        if tworows == "long":
+            # five further full rows at the top of the screen: the line carries about a hundred code words, so the
+            # word counter of late words passes 99 (the rows come out as a second caption with the same times)
+            for r in (1, 2, 3, 4, 5):
+                load += [C.pac(r, 0)] * d + C.text_words("Up") + [C.chars("b", "b")] * 14
+        elif tworows:
             # a second, non-adjacent row: the caption comes out as two captions sharing its times
             load += [C.pac(1 + i, 0)] * d + C.text_words("Up")
         load += [C.pac(15 - i, 0)] * d + C.text_words(texts[i]) + [C.chars("b", "b")] * fillers[i]
         b = bnds[i]
         if b is None or b == "none":
             lines.append((cur, load + [C.EOC] * d))
-            cur += 90 + len(load)
+            cur += 90 + len(load) + (60 if tworows == "long" else 0)
         elif b == "inline":
             lines.append((cur, load + [C.EDM] * d + [C.EOC] * d))
-            cur += 90 + len(load)
+            cur += 90 + len(load) + (60 if tworows == "long" else 0)
         elif b == "split":
             lines.append((cur, load + [C.EOC]))
             lines.append((cur + len(load) + 1, [C.EOC]))
@@ -167,7 +172,7 @@ def evaluate(case):
     from pycaption.exceptions import CaptionReadTimingError
 
     base, sep, doubled, fillers, b1, b2, final, offset = case[:8]
-    tworows = bool(case[8]) if len(case) > 8 else False
+    tworows = (case[8] if case[8] == "long" else bool(case[8])) if len(case) > 8 else False
     spacing = case[9] if len(case) > 9 else 0
     lines = build(base, sep, doubled, fillers, b1, b2, final, tworows)
     exp, err, dontcare, states, trans = simulate(lines, sep, offset, 2 if tworows else 1)
@@ -286,7 +291,7 @@ def run_shard(d):
                     if "split" in (b1, b2) and not d["doubled"]:
                         continue
                     for final in fset:
-                      for tworows, spacing in (((False, 0), (True, 0)) + (((False, 1), (False, 2), (False, 3)) if fillers == fill_sets[1] and offset == offsets_for(base)[0] else ()) if fillers in fill_sets[:2] else ((False, 0),)):
+                      for tworows, spacing in (((False, 0), (True, 0)) + ((("long", 0),) if fillers == fill_sets[0] and b1 in ("none", "inline") and b2 in ("none", "inline") else ()) + (((False, 1), (False, 2), (False, 3)) if fillers == fill_sets[1] and offset == offsets_for(base)[0] else ()) if fillers in fill_sets[:2] else ((False, 0),)):
                         case = (base, d["sep"], d["doubled"], fillers, b1, b2, final, offset, tworows, spacing)
                         v, states, trans, outcome = evaluate(case)
                         allstates.update(states)
@@ -297,7 +302,7 @@ def run_shard(d):
                         acc.traces += 1
                         acc.case(case, True, outcome, {"base_timecode": base, "separator": d["sep"], "doubled": d["doubled"], "filler_words": fillers, "boundaries": [b1, b2], "final": final, "offset_s": offset, "two_non_adjacent_rows_per_caption": tworows, "blank_spacing_variant": spacing})
                         for sig, det in v:
-                            acc.violation(sig + ("/two-rows" if tworows else "") + (("/crlf-line-ends" if spacing == 3 else "/extra-blanks-between-code-words") if spacing else ""), {"case": list(case)}, det)
+                            acc.violation(sig + (("/hundred-word-lines" if tworows == "long" else "/two-rows") if tworows else "") + (("/crlf-line-ends" if spacing == 3 else "/extra-blanks-between-code-words") if spacing else ""), {"case": list(case)}, det)
     res = acc.result()
     res["extra"] = {"state_hashes": sorted(allstates)}
     return res
@@ -315,8 +320,8 @@ def replay(case):
     if case.get("reuse"):
         return shared.replay(reuse_items(), reuse_eval, case["index"], between=reuse_between)
     c = case["case"]
-    tw = bool(c[8]) if len(c) > 8 else False
+    tw = (c[8] if c[8] == "long" else bool(c[8])) if len(c) > 8 else False
     sp = c[9] if len(c) > 9 else 0
     c = (tuple(c[0]), c[1], c[2], tuple(c[3]), c[4], c[5], c[6], c[7], tw, sp)
     v, _, _, _ = evaluate(c)
-    return [{"sig": s + ("/two-rows" if tw else "") + (("/crlf-line-ends" if sp == 3 else "/extra-blanks-between-code-words") if sp else ""), "detail": d} for s, d in (v or [])]
+    return [{"sig": s + (("/hundred-word-lines" if tw == "long" else "/two-rows") if tw else "") + (("/crlf-line-ends" if sp == 3 else "/extra-blanks-between-code-words") if sp else ""), "detail": d} for s, d in (v or [])]
